@@ -27,13 +27,10 @@ Definition flat_entry (e : skey * node) : list Z :=
   Z.of_nat (length (snd e)) :: flat_map (fun c => flat_key (fst c) ++ [snd c]) (snd e).
 Definition flat_dump (st : store) : list Z := 0 :: Z.of_nat (length st) :: flat_map flat_entry st.
 
-(* all (start, end) pairs over (nil :: q), except (nil, nil) *)
+(* all (start, end) pairs over (nil :: q), (nil, nil) included *)
 Definition ends (q : list key) : list (option key) := None :: map Some q.
 Definition subset_pairs (q : list key) : list (option key * option key) :=
-  match flat_map (fun s => map (fun e => (s, e)) (ends q)) (ends q) with
-  | [] => []
-  | _ :: r => r
-  end.
+  flat_map (fun s => map (fun e => (s, e)) (ends q)) (ends q).
 
 Definition block (c : case) (st : store) : list Z :=
   flat_map (fun k => [0; tree_get st k]) (c_uni c) ++
